@@ -162,4 +162,11 @@ theorem fem_tet_BL (v0 v1 v2 v3 : V3 ℝ) (h : Gen.FemTet.pc v0 v1 v2 v3) :
     push_cast
     ring
 
+
+/-! ### census of data-dependent decisions: the traced code took exactly the branches the model knows about -/
+theorem census_FemTria_pcCount : Gen.FemTria.pcCount = 1 := rfl
+theorem census_FemTriaMass_pcCount : Gen.FemTriaMass.pcCount = 1 := rfl
+theorem census_FemTriaAniso_pcCount : Gen.FemTriaAniso.pcCount = 1 := rfl
+theorem census_FemTet_pcCount : Gen.FemTet.pcCount = 1 := rfl
+
 end LapyVerif.Bridge
